@@ -42,13 +42,17 @@ ObsMatches(o) ==
     /\ {Plain(r) : r \in S2(o.rows)} = idx'
     /\ {[p |-> x.p, len |-> x.len] : x \in S2(o.packs)} = {[p |-> p, len |-> SeqLen(pack'[p])] : p \in pex'}
     /\ S2(o.locks) = locked'
+    /\ o.tmp = tmpleft'
 
 (* calls refused because of a stale lock file, and the environment steps that put / remove one *)
 LockStep(ln) ==
     LET o == ln.op
         h == o.h
         ks == o.keys
-    IN CASE o.name = "stalelock" -> IF locked # {} THEN /\ last' = Rec("stalelock", "-", <<>>, {}, "") /\ UNCHANGED <<core, locked>> ELSE LockStale
+    IN CASE o.name = "tmppack"   -> IF tmpleft THEN /\ last' = Rec("tmppack", "-", <<>>, {}, "") /\ UNCHANGED <<core, locked, tmpleft>> ELSE TmpLeft
+         [] o.name = "rmtmp"     -> IF tmpleft THEN TmpRemove ELSE /\ last' = Rec("rmtmp", "-", <<>>, {}, "") /\ UNCHANGED <<core, locked, tmpleft>>
+         [] o.name = "repack"    -> RepackRefused(h, o.mode)
+         [] o.name = "stalelock" -> IF locked # {} THEN /\ last' = Rec("stalelock", "-", <<>>, {}, "") /\ UNCHANGED <<core, locked>> ELSE LockStale
          [] o.name = "unlock"    -> IF locked = {} THEN /\ last' = Rec("unlock", "-", <<>>, {}, "") /\ UNCHANGED <<core, locked>> ELSE Unlock
          [] o.name = "addpack"   -> AddToPackRefused(h, ks, o.z, o.noholes, o.twice)
          [] o.name = "pack"      -> PackRefused(h, o.mode, o.perpack)
@@ -88,10 +92,15 @@ PlainStep(ln) ==
          [] o.name = "listpart"  -> ListPart(h)
          [] OTHER                -> FALSE
 
-Step(ln) == IF ln.op.name \in {"stalelock", "unlock"} \/ (ln.op.raised = "FileExistsError" /\ ln.op.name # "initagain")
-               THEN LockStep(ln)
-               ELSE /\ PlainStep(ln) /\ UNCHANGED locked
+TmpOps == {"tmppack", "rmtmp"}
+Step(ln) == IF \/ ln.op.name \in {"stalelock", "unlock"} \cup TmpOps
+               \/ (ln.op.raised = "FileExistsError" /\ ln.op.name # "initagain")
+               \/ (ln.op.raised = "AssertionError" /\ ln.op.name = "repack")
+               THEN /\ LockStep(ln)
+                    /\ IF ln.op.name \in TmpOps \cup {"repack"} THEN TRUE ELSE UNCHANGED tmpleft
+               ELSE /\ PlainStep(ln) /\ NL
                     /\ WritesPacks(ln) => ~Blocked(ln.op.h)
+                    /\ (ln.op.name = "repack") => (~tmpleft \/ pex = {})
 
 CInit == /\ tid \in 1..NTraces
          /\ l = 1
